@@ -106,10 +106,10 @@ func selfTest(pid, repo, verif string) map[string]any {
 		}
 	}
 	return map[string]any{
-		"what":                           "this property's quick check run against every seeded change and every behaviour-preserving edit, each on its own scratch copy (reported only; never affects the exit status)",
-		"seeded_changes":                 seeded,
-		"seeded_reported_by_this_check":  detected,
-		"behaviour_preserving_edits":     equiv,
+		"what":                             "this property's quick check run against every seeded change and every behaviour-preserving edit, each on its own scratch copy (reported only; never affects the exit status)",
+		"seeded_changes":                   seeded,
+		"seeded_reported_by_this_check":    detected,
+		"behaviour_preserving_edits":       equiv,
 		"false_alarms_on_preserving_edits": alarms,
 	}
 }
